@@ -254,6 +254,21 @@ func runCheck(o checkOpts) int {
 		}
 	}
 	var drv []DriverRun
+	// why the drivers run: timing-dependent stress sections of a driver run only
+	// as a fall-back (an undecided function, a failing obligation) or in the
+	// thorough tier, never as part of the routine quick check
+	driverReason = "quick"
+	if o.tier == "thorough" {
+		driverReason = "thorough"
+	} else if len(undecided) > 0 {
+		driverReason = "fallback"
+	} else {
+		for _, n := range names {
+			if agg[n].verdict != "discharged" && isKnown(n) == nil {
+				driverReason = "fallback"
+			}
+		}
+	}
 	driverModelValues = nil
 	for _, ob := range e.obls {
 		if ob.Verdict == "refuted" && (ob.Kind == "roundtrip" || strings.HasPrefix(ob.Query, "(set-option :produce-models true)\n(set-logic QF_BV)")) {
